@@ -171,7 +171,8 @@ def check_control(ctx):
                    f"{member} has no dispatch branch" + (": a Separate.req is ignored instead of ending the session" if member == "SEPARATE_REQ" else ""),
                    key="branch " + member, where=f.where)
     # else branch: responses without a dedicated handler are routed to the waiting requester
-    cfg = cfg_of(f.node)
+    handlers = {m for m in f.cls.methods if "__handle_hsms_requests_" in m}
+    cfg = cfg_of(inline.expanded(ctx, f, keep=handlers))  # a shared hand-over helper is part of the dispatcher
     puts = _routing_nodes(cfg)
     ok = bool(puts)
     ctx.ob("C05.T2", f.qualname, ok, "other control messages (Linktest.rsp, Reject.req) are routed to the waiting requester" if ok else
@@ -202,7 +203,8 @@ def _state_guarded(cfg, n) -> bool:
 
 def _check_request_handler(ctx, cg, h, req, rsp):
     q = h.qualname
-    cfg = cfg_of(h.node)
+    hfn = inline.expanded(ctx, h, keep=set(_RSP_SENDER.values()) | {"send_reject_rsp"})  # a guard / answer helper of the handler is part of the handler
+    cfg = cfg_of(hfn)
     param = h.node.args.args[1].arg
     sysarg = f"{param}.header.system"
     sender = _RSP_SENDER[rsp]
